@@ -13,13 +13,15 @@ ID = 'C03'
 RULE = ('cases: version-3 dumps built by an independent encoder: fixed header with boundary-biased fields, binary '
         'cpu_info plist, stackshot filler (optionally containing the thread-map tag, partial end markers, a proper '
         'prefix of the marker right before it), filler before the thread-map tag and before every events tag, thread '
-        'map 0..30, 0..80 arbitrary records split into 1..6 chunks at arbitrary points (empty chunks allowed), then '
+        'map 0..30, 0..80 arbitrary records split into 1..6 chunks at arbitrary points (empty chunks allowed; in a quarter of the dumps the record that '
+        'closes a chunk is repeated byte for byte at the head of the next), then '
         '0..7 blocks drawn from {dyld modules, kernel extensions, trace codes, log events, unknown tags} plus '
         'optional processes / images / string-index blocks inserted at arbitrary positions; XML or binary plists; '
         'last block with or without alignment padding. Oracle: events == independent decoding of every record in '
         'order and before any log; tables == thread map extended by logs naming process+thread; every metadata '
         'section == payload (lists concatenated in file order); header fields == generated; logs == C16 expectation '
-        'in order (decoded on hosts of 7 local time zones); sub-check big: chunks of 255..4097 records; sub-check cli: the `processes`, `kexts` and `images` commands print, as JSON, the payload of their section. Non-trivial: >= 2 non-empty chunks and >= 1 metadata/log block; distinct by file digest.')
+        'in order (decoded on hosts of 7 local time zones); sub-check big: chunks of 255..4097 records; sub-check straddle: a stackshot / filler of B*m-j bytes (B in 64..65536) so that the marker that ends it '
+        'straddles a multiple of a typical block size; sub-check optimized: two dumps per run are listed by `python -OO -m pykdebugparser` as by `python -m pykdebugparser`; sub-check cli: the `processes`, `kexts` and `images` commands print, as JSON, the payload of their section. Non-trivial: >= 2 non-empty chunks and >= 1 metadata/log block; distinct by file digest.')
 ASSUMPTIONS = ['container layout taken from the parser\'s own format description (tags, 8-byte realignment, u64 lengths)',
                'fillers never contain a complete copy of the marker that ends them (checked by construction)',
                'at most one processes block and one images block per dump; exactly one string-index block when logs exist']
@@ -60,6 +62,16 @@ def prop_file(ctx, case):
     from pykdebugparser.kevent import Kevent
     from pykdebugparser.os_log_event import OsLogEvent
     spec = case
+    if spec.get('seam_dup'):
+        # the record that closes one chunk is byte-for-byte the record that opens the next (each is a record of the dump)
+        chunks = [list(c) for c in spec['chunks']]
+        last = None
+        for c in chunks:
+            if c and last is not None:
+                c[0] = last
+            if c:
+                last = c[-1]
+        spec = dict(spec, chunks=chunks)
     blob = files.build_v3(spec)
     tp, pn = {0xdead: 1}, {1: 'stale'}
     parser = KdBufParser(tp, pn)
@@ -124,6 +136,8 @@ def prop_file(ctx, case):
             cls.append('multi:' + k)
     if any(not c for c in spec['chunks']):
         cls.append('empty-chunk')
+    if spec.get('seam_dup') and nonempty >= 2:
+        cls.append('same-record-on-both-sides-of-a-chunk-seam')
     if spec['filler1_tag']:
         cls.append('threadmap-tag-in-stackshot')
     if spec.get('decoy'):
@@ -173,16 +187,81 @@ def prop_big(ctx, case):
     ctx.note(['big', case['count'], cut], nontrivial=True, classes=[f'records:{case["count"]}'])
 
 
+def long_filler(n, seed):
+    """n bytes that cannot spell the start of any marker (no 0x00, no 's')"""
+    a = files.ALPHA_NO_MARKER
+    out = bytearray(n)
+    x = seed | 1
+    for i in range(0, n, 8):
+        x = (x * 6364136223846793005 + 1442695040888963407) % (1 << 64)
+        for k in range(min(8, n - i)):
+            out[i + k] = a[(x >> (8 * k)) % len(a)]
+    return bytes(out)
+
+
+def prop_straddle(ctx, case):
+    """a marker that begins `j` bytes before a multiple of a typical block size (counted from where its search begins):
+    a reader that scans block-wise must still find it"""
+    from pykdebugparser.kd_buf_parser import KdBufParser
+    from pykdebugparser.kevent import Kevent
+    spec = dict(case['spec'])
+    n = case['B'] * case['m'] - case['j']
+    if case['which'] == 'more':
+        if len(spec['chunks']) < 2:
+            spec['chunks'] = [spec['chunks'][0][:1], spec['chunks'][0][1:]] if spec['chunks'] and len(spec['chunks'][0]) > 1 else spec['chunks']
+        spec['more_fillers'] = [long_filler(n, case['seed'])] + list(spec['more_fillers'][1:])
+    else:
+        spec[case['which']] = long_filler(n, case['seed'])
+        spec['decoy'] = None
+    blob = files.build_v3(spec)
+    parser = KdBufParser({}, {})
+    items = guard(lambda: list(parser.parse(BudgetReader(blob))))
+    recs = files.v3_all_records(spec)
+    evs = [x for x in items if isinstance(x, Kevent)]
+    if len(evs) != len(recs):
+        raise Violation('event-count:straddle', f'{len(evs)} events for {len(recs)} records when {case["which"]} is {n} bytes long (marker {case["j"]} bytes before {case["m"]} x {case["B"]})')
+    for ev, rec in zip(evs, recs):
+        check_event(ev, rec)
+    exp = expected(spec)
+    if len(items) - len(evs) != len(exp['logs']) or parser.trace_codes != exp['codes'] or parser.processes != exp['processes']:
+        raise Violation('sections:straddle', f'logs / metadata differ when {case["which"]} is {n} bytes long')
+    ctx.note([case['which'], case['B'], case['m'], case['j'], case['seed']], nontrivial=case['j'] > 0, classes=[f'straddle:{case["which"]}:{case["B"]}'])
+
+
+def prop_optimized(ctx, case):
+    """a dump is read the same by an interpreter started with -OO (assert statements and docstrings stripped)"""
+    spec = case
+    blob = files.build_v3(spec)
+    for cmd in ('kevents', 'logs', 'processes'):
+        here, exc = guard(CLI.invoke, cmd, {}, blob)
+        if exc is not None:
+            continue
+        out, err, rc = guard(CLI.invoke_subprocess, cmd, {}, blob, None, 2)
+        if rc != 0 or out != here:
+            raise Violation(f'optimized-interpreter:{cmd}', f'`python -OO -m pykdebugparser {cmd}` exits {rc} and prints {len(out.splitlines())} lines, `python -m ...` prints '
+                                                            f'{len(here.splitlines())}: {err[-200:]}')
+    ctx.note(blob, nontrivial=True, classes=['optimized-interpreter'])
+
+
 prop_file = zoned(prop_file)
-PROPS = {'file': prop_file, 'cli': prop_cli, 'big': prop_big}
+PROPS = {'file': prop_file, 'cli': prop_cli, 'big': prop_big, 'straddle': prop_straddle, 'optimized': prop_optimized}
 
 
 def run(ctx):
-    zspec = st.tuples(files.v3_spec(), st.sampled_from(HOST_ZONES)).map(lambda t: {**t[0], 'zone': t[1]})
+    zspec = st.tuples(files.v3_spec(), st.sampled_from(HOST_ZONES), st.sampled_from([False, False, False, True])).map(lambda t: {**t[0], 'zone': t[1], 'seam_dup': t[2]})
     ctx.run_given('file', zspec, prop_file, ctx.n(300, 1500))
     bigs = st.fixed_dictionaries({'spec': files.v3_spec(max_events=0, max_n=3, log_copies=1), 'count': st.sampled_from(files.BIG_COUNTS),
                                   'seed': st.integers(0, 2 ** 32), 'split': st.integers(0, 5000)})
     ctx.run_given('big', bigs, prop_big, ctx.n(16, 120))
+    small = files.v3_spec(max_events=6, max_n=2, log_copies=1)
+    st_small = st.fixed_dictionaries({'spec': small, 'B': st.sampled_from([64, 512, 1024, 4096, 8192]), 'm': st.integers(1, 3), 'j': st.integers(0, 17),
+                                      'which': st.sampled_from(['filler1', 'filler1', 'filler2', 'more']), 'seed': st.integers(0, 2 ** 32)})
+    ctx.run_given('straddle', st_small, prop_straddle, ctx.n(60, 600))
+    st_64k = st.fixed_dictionaries({'spec': small, 'B': st.just(65536), 'm': st.sampled_from([1, 1, 2]), 'j': st.integers(1, 15),
+                                    'which': st.sampled_from(['filler1', 'filler1', 'filler2', 'more']), 'seed': st.integers(0, 2 ** 32)})
+    ctx.run_given('straddle', st_64k, prop_straddle, ctx.n(12, 120))
     if ctx.failures:
         return          # the command line reads real files without a read budget: not on a tree that already fails
     ctx.run_given('cli', files.v3_spec(), prop_cli, ctx.n(60, 300))
+    if ctx.shard == 0:
+        ctx.run_given('optimized', files.v3_spec(max_events=20, max_n=4, force_logs=True), prop_optimized, ctx.n(2, 8))
